@@ -59,3 +59,21 @@ TARGETS = {
     "codebasin.config:load_database": DbDotDot(),
 }
 TARGETS["codebasin.finder:ParserState.get_setmap"].proved = True
+
+
+# ---- recorded finding: `..` after a directory link inside an #include operand is cancelled lexically -------------------
+from native import recorded as _R      # noqa: E402
+
+
+def _x_include_dotdot_after_link():
+    import os
+    files = {"src/a.c": '#include "dl/../y.h"\nint a;\n', "other/y.h": "int other_y;\n", "other/sub/z.h": "int z;\n", "src/y.h": "int decoy;\n"}
+    with _R.tree(files) as root:
+        os.symlink("../other/sub", os.path.join(root, "src/dl"))
+        used = _R.used_lines(root, [{"file": os.path.join(root, "src/a.c"), "defines": [], "include_paths": [], "include_files": []}])
+    return None if used.get("other/y.h") == [1] and not used.get("src/y.h") else (
+        "other/y.h is read (src/dl -> ../other/sub, so dl/../y.h is other/y.h: gcc -E)", used)
+
+
+TARGETS["codebasin.platform:Platform.find_include_file#recorded-findings"] = _R.Exhibits([
+    ("aliases:dotdot-after-a-directory-link-in-an-include-operand", '#include "dl/../y.h" with src/dl -> ../other/sub', _x_include_dotdot_after_link)])
